@@ -336,7 +336,7 @@ if __name__ == "__main__":
         "composite: ModelComposite.cstep is an LTS over the atomic sections of dialPeer / dialSync.Dial / the worker loop / the limiter (labels CCall, CDeliver, CTimer, CBegin, CRes, CFin, CCancel, CLeave, CExit) that moves the component models only by their own steps; theorems c05_composite_* hold for every schedule (list of labels). Merged sections: the AddDialJob calls of one timer case are part of that step; a worker whose reqch is closed is frozen except for its exit (its further iterations touch only its own dead state, the back-off table and jobs whose context is already cancelled); back-off, existing connections, rankings and the clock are environment answers carried by the labels",
         "composite correspondence: every recorded DialPeer scenario is replayed by the composite model under the harness-level semantics of SpecComposite (one stimulus, then every enabled step until nothing moves). ACCEPTANCE: when the last caller leaves in the same step in which a dial ends, finishedDial races with the cancellation of the shared context, so a queued job that gets a token may or may not reach its transport before it is cancelled; such transient dial starts/ends may be any subset of those the model's schedule produces; everything else must agree exactly",
         "REPAIRED DEFECT (known_findings/C05.json, status fixed, /repo commit e092243): clearAllPeerDials, run by the deferred exit of a worker that returns late, used to delete the live jobs a newer active dial for the same peer had queued on the per-peer limit. The model transcribes the repaired code (only jobs whose context is done are dropped); c05_composite_no_lost_job now holds for every schedule; the old code is kept as clear_peer_old for the non-vacuity example; the harness scenario c05DialPeerStaleExit (old worker parked in the connection gater) is a fixed regression case on which monitor clause 9 must hold",
-        "PARTIAL (composite monitor): c05_composite_monitor_accepts_partial proves that clauses 1 (returns well-formed; a connection only after a successful dial), 2 (cancelled caller released in the same step with its context error), 3 (no address handed to a transport twice while a caller waits), 4 (caps) and 7 (count of callers inside) of the DialPeer monitor never fire on composite-model traces with fresh caller ids and repetition-free rankings (the harness-level semantics is presented as a relation, Proofs_CompositeH.hstep, whose moves carry the oracle answers the semantics gives them). Remaining, judged on implementation traces: 5, 6, 9 (need the lemma that the drain of SpecComposite reaches quiescence; state-level counterparts for every schedule: c05_composite_leaving_caller_keeps_shared_dials, _no_leaked_active_dial, _no_lost_job); clause 8 (the case ends with every caller returned) is a statement about how the harness ends a case, not about the model. The harness-level semantics lets a cancelled caller take its ctx.Done case first (the harness never has a response pending at that point). Concurrency finer than the listed atomic sections is covered by the correspondence only",
+        "PARTIAL (composite monitor): c05_composite_monitor_accepts_partial proves that clauses 1 (returns well-formed; a connection only after a successful dial), 2 (cancelled caller released in the same step with its context error), 3 (no address handed to a transport twice while a caller waits), 4 (caps), 5 (a cancel ends no dial of the others), 6 (nothing left once all returned) and 7 (count of callers inside) of the DialPeer monitor never fire on composite-model traces with fresh caller ids, repetition-free rankings and limits >= 1. The harness-level semantics is presented as a relation (Proofs_CompositeH.hstep) whose moves carry the oracle answers the semantics gives them; its drain runs as many rounds as a bound computed from the state (SpecComposite.phi) and c05_composite_drain_quiescent proves that it ends in a state in which nothing can move. Remaining, judged on implementation traces: clause 9 (missing lemma: after an advance of at least 2 s the dial queue of the live worker is empty; needs ranking delays below 2 s in the well-formedness of stimuli; state-level counterpart for every schedule: c05_composite_no_lost_job); clause 8 (the case ends with every caller returned) is a statement about how the harness ends a case, not about the model. The harness-level semantics lets a cancelled caller take its ctx.Done case first (the harness never has a response pending at that point). Concurrency finer than the listed atomic sections is covered by the correspondence only",
         "ranker: addresses are the tuple of answers of the predicates the ranker evaluates (recorded from the real predicates); sort.Slice is a Section hypothesis (permutes its input), instantiated with stable insertion sort (what sort.Slice runs for <= 12 elements; cases have <= 10 addresses)",
         "DNS resolution, black-hole detector and back-off expiry are inputs (BackoffBase is set to 24h in the worker harness so entries do not expire in a case)",
     ]
